@@ -16,6 +16,25 @@ def load(path):
     return mod
 
 
+class ContractDelegation(BaseException):
+    pass
+
+
+def strip_contracts(mod, keep=None):
+    """CrossHair ENFORCES the PEP-316 contract of every function that is called during an analysis and silently ignores a path on
+    which a callee's postcondition fails ("it will be surfaced more locally"), so a harness that delegates to another
+    contract-bearing harness function would be confirmed vacuously.  (The contracts are parsed from the SOURCE, so they cannot be
+    stripped at run time.)  Guard: every other contract-bearing function of a harness module is replaced by a trap; delegation
+    makes the condition end as a harness error, never as a pass.  Shared bodies must live in functions without contracts
+    (base modules for vlib.gen spell their contracts PRE:/POST:, which CrossHair does not recognise)."""
+    import types
+    for name, obj in list(vars(mod).items()):
+        if isinstance(obj, types.FunctionType) and name != keep and obj.__doc__ and re.search(r"^\s*(post|pre):", obj.__doc__, re.M):
+            def trap(*a, _n=name, **k):
+                raise ContractDelegation("harness function %s carries a contract and must not be called by another harness" % _n)
+            setattr(mod, name, trap)
+
+
 def main():
     path, func, tmo = sys.argv[1], sys.argv[2], float(sys.argv[3])
     ppt = float(sys.argv[4]) if len(sys.argv) > 4 else None
@@ -23,6 +42,10 @@ def main():
     out = {"module": path, "func": func, "timeout": tmo}
     try:
         mod = load(path)
+        strip_contracts(mod, keep=func)
+        for m in list(sys.modules.values()):
+            if getattr(m, "__name__", "").startswith("vh_") and m is not mod:
+                strip_contracts(m)
         from crosshair.core_and_libs import analyze_function, run_checkables
         from crosshair.options import AnalysisOptionSet
         from crosshair.statespace import MessageType
